@@ -41,6 +41,15 @@ fn alphabet() -> Vec<Q> {
         r("RETURN 'a\\'  b'"),
         r("RETURN \"a'  b\""),
         r("RETURN \"a' b\""),
+        // a literal that ends in an escaped backslash, followed by a second literal: a scanner that
+        // mis-tracks `\\` leaves the first literal "open" and normalises inside the second one
+        // (seeded change C03)
+        r("RETURN 'C:\\\\' AS d, 'a b' AS v"),
+        r("RETURN 'C:\\\\' AS d, 'a  b' AS v"),
+        r("RETURN \"C:\\\\\" AS d, \"a b\" AS v"),
+        r("RETURN \"C:\\\\\" AS d, \"a  b\" AS v"),
+        r("RETURN 'x\\\\\\'' AS d, 'a b' AS v"),
+        r("RETURN 'x\\\\\\'' AS d, 'a  b' AS v"),
         // literal that looks like a comment
         r("RETURN '// a  b'"),
         r("RETURN '// a b'"),
